@@ -142,6 +142,44 @@ def run(ctx, rep):
     _identity.run(F, rep)
     _identity.zip_lengths(F, rep, "C03.zip-length")
     signature_invariance(F, rep, "C03.signature-invariance")
+    every_argument_is_checked(F, rep, "C03.arity")
+    optional_not_accepted_for_plain(F, rep, "C03.optional-direction")
+
+
+def every_argument_is_checked(F, rep, rule):
+    """A call is accepted only after *each* argument written at the call site was matched with a parameter.  In Parser::function_arguments
+    the walk over the argument nodes may leave early only into a diagnostic: with the iterator's own end-of-input edge taken away, no
+    Ok return is reachable from the walk (a `break` on a surplus argument drops it - unchecked, uncompiled, unevaluated - and accepts the call)."""
+    f = None
+    for g in F.crates["compiler"].fns:
+        if g.path.endswith("::function_arguments") and "impl compiler::parser::Parser" in g.path:
+            f = g
+    if f is None:
+        raise AnchorMissing("Parser::function_arguments")
+    nexts = [c for c in f.calls() if c.callee().endswith("::next") and "desugar:ForLoop" in (c.t.get("mc") or [])]
+    if not nexts:
+        rep.ob(rule, "Parser::function_arguments walks the argument nodes with a for loop", "undecided", "no for-loop `next` found", f.span, fn=f.path, key=rule)
+        return
+    verdicts = []
+    for c in nexts:
+        sw = rules.find_discr_switch(f, c.target, c.dst["l"]) if c.target is not None else None
+        if sw is None:
+            verdicts.append((c, None))
+            continue
+        t = f.term(sw)
+        none_t = dict(t["targets"]).get("0")
+        if none_t is None:
+            verdicts.append((c, None))
+            continue
+        reach = f.reachable(c.bb, removed_edges={(sw, none_t)})
+        oks = [b for b in rules.ok_return_blocks(f) if b in reach]
+        verdicts.append((c, oks))
+    und = [c for c, v in verdicts if v is None]
+    bad = [(c, v) for c, v in verdicts if v]
+    rep.ob(rule, "Parser::function_arguments accepts a call only after walking every argument node (no early exit into Ok)",
+           "violated" if bad else ("undecided" if und else "ok"),
+           ("an Ok return is reachable from inside the walk without the iterator having ended: `f = fn(a: int) -> int {..}; f(1, 2)` is accepted and the "
+            "second argument is dropped") if bad else "", nexts[0].span, fn=f.path, key=rule)
 
 
 def signature_invariance(F, rep, rule):
@@ -272,3 +310,80 @@ def return_scope(F, rep):
                "violated" if leaked else ("undecided" if undecided else "ok"),
                ("a block inside a void function that is nested in a function returning T starts out owing T: `return v` in it is checked against the wrong function; " if leaked else "")
                + "on [block, fn (void), fn -> OUTER]: %s" % seen[:3], f2.span, fn=f2.path, key="C03.return-scope|%s" % mir.short(path))
+
+
+
+def optional_not_accepted_for_plain(F, rep, rule):
+    """`TypeLayout::eq_complex(expected, supplied, flags)` is asymmetric: a `T?` slot takes a `T`, and - unless lhs_allow_optional_unwrap is
+    set - a `T` slot does not take a `T?`.  At every place where the parser checks a value against the slot it is stored into (typed
+    declaration, call argument, map literal entry, re-assignment, return) the call is read off the MIR - which operand is the value's type
+    (it comes from `Value::for_type`), which flags are passed - and eq_complex itself is then evaluated abstractly in exactly that
+    configuration on (slot int, value int?), which must be refused, and on (slot int?, value int), which must be accepted."""
+    import tables
+    from absint import Interp, Variant, TRUE, FALSE, NONE
+    T = tables.Tables(F)
+    eqc = [f for f in F.crates["compiler"].fns if f.path.endswith("TypeLayout::eq_complex") and f.kind != "Closure"]
+    fl = F.adt("compiler::ast::r#type::TypecheckFlags")
+    if len(eqc) != 1 or fl is None:
+        raise AnchorMissing("TypeLayout::eq_complex / TypecheckFlags")
+    eqc = eqc[0]
+
+    def flags(unwrap):
+        vals = {"lhs_allow_optional_unwrap": TRUE if unwrap else FALSE, "executing_class": NONE}
+        return Variant("compiler::ast::r#type::TypecheckFlags", 0, "TypecheckFlags", [vals.get(x["name"], FALSE) for x in fl["variants"][0]["fields"]])
+    memo = {}
+
+    def accepts(recv, arg, unwrap):
+        k = (recv, arg, unwrap)
+        if k not in memo:
+            tl = {"int": T.tl_value("Int", "a"), "int?": T.tl_value(("Opt", "Int"), "b")}
+            it = Interp(F, models=tables.MODELS, max_depth=8, max_paths=512)
+            outs = it.run(eqc, [tl[recv], tl[arg], flags(unwrap)])
+            vals = {bool(o.value.v) if (o.kind == "return" and hasattr(o.value, "v")) else "?" for o in outs}
+            memo[k] = vals.pop() if len(vals) == 1 and not it.exhausted else "?"
+        return memo[k]
+    thr = rules.TRANSPARENT | {rules.TRY_BRANCH, "compiler::VecErr::to_err_vec", "compiler::CompilationError::details", "anyhow::Context::context",
+                               "anyhow::Context::with_context", "compiler::ast::r#type::TypeLayout::get_type_recursively",
+                               "compiler::ast::r#type::TypeLayout::disregard_distractors", "compiler::ast::r#type::TypeLayout::assume_type_of_self",
+                               "core::result::Result::unwrap", "core::option::Option::unwrap"}
+    n = 0
+    for f in F.crates["compiler"].fns:
+        if "impl compiler::parser::Parser" not in f.path:
+            continue
+        for c in f.calls_to("compiler::ast::r#type::TypeLayout::eq_complex"):
+            roles = []
+            for a in c.args[:2]:
+                l = op_local(a)
+                oc = rules.origin_calls(f, l, transparent=thr) if l is not None else []
+                if not oc and l is not None:
+                    # a wrapper built on the spot (`&Cow::Borrowed(supplied_type)`): look at what it wraps
+                    for o in rules.origins(f, l, transparent=thr):
+                        if o[0] == "agg":
+                            for bi, si, dst, rv, s_ in f.assigns():
+                                if bi == o[1] and si == o[2] and "agg" in rv:
+                                    for x in rv["ops"]:
+                                        if op_local(x) is not None:
+                                            oc += rules.origin_calls(f, op_local(x), transparent=thr)
+                roles.append(bool(oc) and all(o.callee().endswith(("Value::for_type", "Expr::for_type")) or "IntoType>::for_type" in o.callee() for o in oc))
+            if roles[0] == roles[1]:
+                continue        # two declared types, or two value types: not a value-into-slot check
+            # lhs_unwrap(const) on the flags?
+            unwrap = False
+            fl_l = op_local(c.args[2]) if len(c.args) > 2 else None
+            for o in (rules.origin_calls(f, fl_l, transparent=rules.TRANSPARENT - {"compiler::ast::r#type::TypecheckFlags::lhs_unwrap"}) if fl_l is not None else []):
+                if mir.short(o.callee()).endswith("::lhs_unwrap") and len(o.args) > 1:
+                    k = op_const(o.args[1])
+                    unwrap = unwrap or k is None or k.get("int") != "0"
+            n += 1
+            value_is_receiver = roles[0]
+            refuse = accepts("int?", "int", unwrap) if value_is_receiver else accepts("int", "int?", unwrap)
+            accept = accepts("int", "int?", unwrap) if value_is_receiver else accepts("int?", "int", unwrap)
+            st = "undecided" if "?" in (refuse, accept) else ("ok" if refuse is False and accept is True else "violated")
+            why = ""
+            if st == "violated":
+                why = ("the call is `%s.eq_complex(%s, lhs_unwrap=%s)`: a slot of type int %s a value of type int?, a slot of type int? %s a value of type int"
+                       % ("value" if value_is_receiver else "slot", "slot" if value_is_receiver else "value", unwrap, "takes" if refuse else "refuses",
+                          "takes" if accept else "refuses"))
+            rep.ob(rule, "%s checks the value against its slot: `T?` takes `T`, `T` does not take `T?`" % mir.short(f.path), st, why, c.span, fn=f.path,
+                   key="%s|%s|%s" % (rule, mir.short(f.path), (c.span or "").split(":")[0].split("/")[-1] + "#%d" % n))
+    rep.floor(rule + " value-into-slot checks", n, 5)
